@@ -266,6 +266,9 @@ def do_fs(op, a):
         return out(lambda: list(FindInPaths(a[0] or None).find(a[1], as_sid=False)))
     if op == 'find_all':
         return out(lambda: sorted(FindInAll().find(Sid(a[0]) if len(a) > 1 and a[1] == 'sidarg' else a[0], as_sid=False)))
+    if op == 'finder_exists':
+        # exists() of the Finder object itself (not Sid.exists): a[0] = 'paths' | 'all'
+        return out(lambda: t_bool((FindInPaths(a[1] or None) if a[0] == 'paths' else FindInAll()).exists(a[2])))
     if op == 'find_all_one':
         return out(lambda: t_opt(FindInAll().find_one(a[0], as_sid=False)))
     if op == 'find_all_raw':
